@@ -176,6 +176,15 @@ func VerifHarness_C06_shift() {
 	verifC06Sized(3, 1)
 }
 
+// Short contents of different lengths: two files, the first of 0..3 fully symbolic bytes in either
+// directory: contents that differ only by a byte sequence a "normalising" hash input would fold
+// (line endings, blanks) are different directories.
+func VerifHarness_C06_lens2() {
+	verifContentLens = []int{0, 1, 2, 3}
+	defer func() { verifContentLens = nil }()
+	verifC06Sized(2, 1)
+}
+
 func VerifHarness_C06_quick()          { verifC06(3, 4, false, false) }
 func VerifHarness_C06_ignore()         { verifC06(2, 1, true, false) }
 func VerifHarness_C06_ignore_witness() { verifC06(1, 1, true, true) }
